@@ -1,11 +1,449 @@
-/- Line-protocol driver for C07 (stub until the property's models exist). -/
-import PyIpmi.Base.Proto
-open PyIpmi.Proto
+/-
+  Line-protocol driver for C07.  Hosts up to 4 instances of the reference BMC (Spec.Bmc,
+  stateful) and the per-operation models (Model.Api).
 
-def handleC07 (line : String) : String :=
+    new <i> <seed>                       -> ok            instance i := random conforming state
+    mut <i> <seed> <family>              -> ok            the BMC's own state moves (family: chassis|sensors|leds|hpm|fans|all)
+    req <i> <netfn> <lun> <cmd> <hex>    -> <hex>         one IPMI request; reply = completion code :: data
+    digest <i>                           -> <hash>
+    dump <i>                             -> Repr of the normalised state
+    spec <i> <op> <args…>                -> <digest-after> <result>     oracle: Spec.run, instance untouched
+    specdump <i> <op> <args…>            -> Repr of the state the oracle expects
+    model <i> <variant> <op> <args…>     -> <digest-after> <result> | <error tag>    Model.Api, instance untouched;
+                                            variant: letters l (LED decode as shipped), p (port state as shipped) or -
+    ops                                  -> names of the operations that have a model
+-/
+import PyIpmi.Base.Proto
+import PyIpmi.Spec.Bmc
+import PyIpmi.Model.Api.Ops
+open PyIpmi PyIpmi.Proto PyIpmi.Spec.Bmc
+
+/-! ### random conforming states -/
+
+abbrev Gen := StateM Nat
+
+def rnd (n : Nat) : Gen Nat := do
+  let s ← get
+  let s' := (s * 6364136223846793005 + 1442695040888963407) % 18446744073709551616
+  set s'
+  pure ((s' / 8589934592) % (if n = 0 then 1 else n))
+
+def rndBool : Gen Bool := do pure ((← rnd 2) == 1)
+def rndBytes (n : Nat) : Gen (List Nat) := (List.range n).mapM fun _ => rnd 256
+def pick {α} [Inhabited α] (l : List α) : Gen α := do pure (l.getD (← rnd l.length) default)
+/-- boundary-biased byte -/
+def rndByte : Gen Nat := do
+  if (← rnd 4) == 0 then pick [0, 1, 0x7f, 0x80, 0xfe, 0xff] else rnd 256
+def rndOpt (g : Gen Nat) : Gen (Option Nat) := do
+  if ← rndBool then pure (some (← g)) else pure none
+
+def genDevice : Gen DeviceId := do
+  let aux ← if ← rndBool then (do pure (some (← rndBytes 4))) else pure none
+  pure { deviceId := ← rndByte, revision := ← rnd 16, providesSdrs := ← rndBool, updateInProgress := ← rndBool,
+         fwMajor := ← rnd 128, fwMinor := ← rnd 100, ipmiMajor := ← pick [1, 2], ipmiMinor := ← pick [0, 5],
+         support := ← rndByte, manufacturer := ← pick [0, 1, 15000, 0xfffff, 0x12345],
+         product := ← pick [0, 1, 0xffff, 0x1234, 0x8001],
+         aux := aux }
+
+def genWatchdog : Gen Watchdog := do
+  let init ← pick [0, 1, 100, 0xff, 0x100, 0xffff, 0x1234]
+  pure { timerUse := ← rnd 8, dontLog := ← rndBool, running := ← rndBool, action := ← rnd 8,
+         preInterrupt := ← rnd 8, preInterval := ← rndByte, expFlags := ← rndByte, initial := init,
+         present := ← pick [0, init, 0xffff, 7] }
+
+def genChassis : Gen Chassis := do
+  pure { powerOn := ← rndBool, overload := ← rndBool, interlock := ← rndBool, fault := ← rndBool,
+         controlFault := ← rndBool, restorePolicy := ← rnd 4,
+         evAcFailed := ← rndBool, evOverload := ← rndBool, evInterlock := ← rndBool, evFault := ← rndBool,
+         evIpmiOn := ← rndBool, intrusion := ← rndBool, lockout := ← rndBool, driveFault := ← rndBool,
+         coolingFault := ← rndBool, idState := ← rnd 4, idSupported := ← rndBool,
+         frontPanel := ← rndOpt rndByte }
+
+def genSensor : Gen Sensor := do
+  let s1 ← rndOpt rndByte
+  let s2 ← rndOpt rndByte
+  pure { reading := ← rndByte, eventMsgEnabled := ← rndBool, scanningEnabled := ← rndBool,
+         unavailable := (← rnd 4) == 0, states1 := s1, states2 := if s1.isSome then s2 else none,
+         readable := ← pick [0x3f, 0, 0x1b, 0x24, 0x01, 0x20, 0x15], thresholds := ← rndBytes 6 }
+
+def genLedFn : Gen LedFn := do
+  match ← rnd 4 with
+  | 0 => pure .off
+  | 1 => pure .on
+  | _ => pure (.blink (← pick [1, 2, 0x7f, 0xf9, 0xfa, 50]) (← pick [1, 2, 0x7f, 0xf9, 0xfa, 30]))
+
+def genLed : Gen Led := do
+  pure { localAvail := ← rndBool, overrideEn := ← rndBool, lampTestEn := (← rnd 3) == 0,
+         localFn := ← genLedFn, localColor := 1 + (← rnd 6), overrideFn := ← genLedFn,
+         overrideColor := 1 + (← rnd 6), lampDur := ← rnd 128 }
+
+def genFan : Gen Fan := do
+  let lv ← rndOpt (rnd 16)
+  let le ← rndOpt (rnd 2)
+  pure { minLevel := ← rnd 4, maxLevel := 10 + (← rnd 20), normalLevel := ← rnd 10, localSupported := ← rndBool,
+         overrideLevel := ← pick [0, 1, 5, 0xfe, 0xff], localLevel := lv,
+         localEnabled := if lv.isSome then le else none }
+
+def genPort : Gen Port := do
+  pure { hasLink := (← rnd 5) != 0, flags := ← rnd 16, linkType := ← rndByte, ext := ← rnd 16,
+         grouping := ← rndByte, state := ← rnd 2 }
+
+def genPower : Gen PowerLevel := do
+  pure { dynamic := ← rndBool, level := ← rnd 32, delay := ← rndByte, multiplier := ← rndByte,
+         draw := ← rndBytes (← rnd 21) }
+
+def genHpm : Gen Hpm := do
+  pure { version := ← pick [0, 1], capabilities := ← rndByte, timeouts := ← rndBytes 4, components := ← rndByte,
+         cmdInProgress := ← pick [0, 0x31, 0x32, 0x33, 0x35], lastCc := ← pick [0, 0x80, 0x81, 0xd5, 0xff],
+         estimate := ← rndOpt (rnd 101), selftest1 := ← pick [0x55, 0x56, 0x57, 0x58, 0x60],
+         selftest2 := ← rndByte, rollbackStatus := ← pick [0, 0x80, 0x81], rollbackEstimate := ← rndOpt (rnd 101) }
+
+def lunPool : List Nat := [0, 1, 2, 3]
+def sensorPool : List Nat := [0, 1, 2, 0x7f, 0x80, 0xfe, 0xff]
+def fruPool : List Nat := [0, 1, 2, 3, 0xfe]
+def ledPool : List Nat := [0, 1, 2, 3, 4, 0xff]
+def chanPool : List Nat := [0, 1, 2, 7, 15]
+def userPool : List Nat := [1, 2, 3, 10, 62, 63]
+
+def genMap {α} (keys : List Nat) (g : Gen α) (skip : Nat := 3) : Gen (Map α) := do
+  let mut m : Map α := {}
+  for k in keys do
+    if (← rnd skip) != 0 then m := m.set k (← g)
+  pure m
+
+def validBootDevs : List Nat := [0, 1, 2, 3, 4, 5, 6, 7, 8, 9, 11, 15]
+
+def genBoot : Gen (Map (List Nat)) := do
+  let dev ← pick validBootDevs
+  let d1 := 128 * (← rnd 2) + 64 * (← rnd 2) + 32 * (← rnd 2)
+  let d2 := 128 * (← rnd 2) + 64 * (← rnd 2) + 4 * dev + (← rnd 4)
+  let mut m : Map (List Nat) := {}
+  m := m.set 5 [d1, d2, ← rndByte, ← rnd 32, ← rnd 32]
+  if ← rndBool then m := m.set 0 [← rnd 3]
+  if ← rndBool then m := m.set 4 [← rndByte, ← rndByte]
+  pure m
+
+def genLan : Gen (Map (List Nat)) := do
+  let mut m : Map (List Nat) := {}
+  for ch in chanPool do
+    if ← rndBool then m := m.set (lanKey ch 3) (← rndBytes 4)
+    if ← rndBool then m := m.set (lanKey ch 4) [← rnd 5]
+    if ← rndBool then m := m.set (lanKey ch 5) (← rndBytes 6)
+    if ← rndBool then
+      let id ← pick [0, 1, 394, 0xff, 0x100, 4094, 4095, 0x7ff]
+      m := m.set (lanKey ch 20) [id % 256, 128 * (← rnd 2) + id / 256]
+    if ← rndBool then m := m.set (lanKey ch 16) (← rndBytes 18)
+  pure m
+
+def genAccess : Gen UserAccess := do
+  pure { privilege := ← pick [0, 1, 2, 3, 4, 5, 0xf, 7], ipmiMsg := ← rndBool, linkAuth := ← rndBool,
+         callbackOnly := ← rndBool, sessionLimit := ← rnd 16 }
+
+def genName : Gen (List Nat) := do
+  let n ← rnd 17
+  let cs ← (List.range n).mapM fun _ => do pure (0x20 + (← rnd 0x5f))
+  pure (padTo 16 cs)
+
+def genState : Gen BmcState := do
+  let sensorKeys := lunPool.flatMap fun l => sensorPool.map fun n => sensorKey l n
+  let ledKeys := fruPool.flatMap fun f => ledPool.map fun l => ledKey f l
+  let accessKeys := chanPool.flatMap fun c => userPool.map fun u => userKey c u
+  let portKeys := [0, 1, 2].flatMap fun i => [0, 1, 5, 63].map fun c => portKey i c
+  let powerKeys := fruPool.flatMap fun f => [0, 1, 2, 3].map fun t => f * 4 + t
+  pure {
+    device := ← genDevice, guid := ← rndBytes 16, watchdog := ← genWatchdog, chassis := ← genChassis,
+    bootParams := ← genBoot, lan := ← genLan,
+    userNames := ← genMap userPool genName, userEnabled := ← genMap userPool (pick [0, 1, 2]),
+    userAccess := ← genMap accessKeys genAccess, maxUsers := ← pick [1, 10, 63], fixedNames := ← rnd 3,
+    sensors := ← genMap sensorKeys genSensor,
+    evReceiverAddr := 2 * (← rnd 128), evReceiverLun := ← rnd 4,
+    picmgVersion := ← pick [0x22, 0x32, 0x14], maxFruId := ← rnd 8, ipmcFruId := ← rnd 3,
+    leds := ← genMap ledKeys genLed, fans := ← genMap fruPool genFan, ports := ← genMap portKeys genPort,
+    power := ← genMap powerKeys genPower,
+    frus := ← genMap fruPool (do pure { active := ← rndBool, locked := ← rndBool, deactLocked := ← rndBool }),
+    sigClass := ← genMap portKeys (rnd 16),
+    powerChannels := ← genMap [1, 2, 3, 16] (do pure { status := ← rnd 128 }),
+    pmMaxChannel := ← pick [1, 16], pmGlobal := ← rnd 16, hpm := ← genHpm }
+
+def mutate (fam : String) (s : BmcState) : Gen BmcState := do
+  let sensorKeys := lunPool.flatMap fun l => sensorPool.map fun n => sensorKey l n
+  let ledKeys := fruPool.flatMap fun f => ledPool.map fun l => ledKey f l
+  let all := fam == "all"
+  let mut s := s
+  if all || fam == "chassis" then s := { s with chassis := ← genChassis }
+  if all || fam == "sensors" then s := { s with sensors := ← genMap sensorKeys genSensor 8 }
+  if all || fam == "leds" then s := { s with leds := ← genMap ledKeys genLed 8 }
+  if all || fam == "fans" then s := { s with fans := ← genMap fruPool genFan 8 }
+  if all || fam == "hpm" then s := { s with hpm := ← genHpm, pmGlobal := ← rnd 16 }
+  if all || fam == "device" then s := { s with device := ← genDevice, watchdog := ← genWatchdog }
+  if all || fam == "boot" then s := { s with bootParams := ← genBoot }
+  if all || fam == "lan" then s := { s with lan := ← genLan }
+  if all || fam == "guid" then s := { s with guid := ← rndBytes 16 }
+  if all || fam == "users" then
+    let accessKeys := chanPool.flatMap fun c => userPool.map fun u => userKey c u
+    s := { s with userNames := ← genMap userPool genName 8, userAccess := ← genMap accessKeys genAccess 8,
+                  maxUsers := ← pick [1, 10, 63] }
+  if all || fam == "events" then s := { s with evReceiverAddr := 2 * (← rnd 128), evReceiverLun := ← rnd 4 }
+  if all || fam == "ports" then
+    let portKeys := [0, 1, 2].flatMap fun i => [0, 1, 5, 63].map fun c => portKey i c
+    s := { s with ports := ← genMap portKeys genPort 8, sigClass := ← genMap portKeys (rnd 16) 8 }
+  if all || fam == "power" then
+    let powerKeys := fruPool.flatMap fun f => [0, 1, 2, 3].map fun t => f * 4 + t
+    s := { s with power := ← genMap powerKeys genPower 8,
+                  powerChannels := ← genMap [1, 2, 3, 16] (do pure { status := ← rnd 128 }) 8 }
+  if all || fam == "picmg" then s := { s with picmgVersion := ← pick [0x22, 0x32, 0x14], maxFruId := ← rnd 8, ipmcFruId := ← rnd 3 }
+  pure s
+
+/-! ### canonical text -/
+
+def normState (s : BmcState) : BmcState :=
+  { s with bootParams := s.bootParams.norm, bootInvalid := s.bootInvalid.norm, bootMailbox := s.bootMailbox.norm,
+           lan := s.lan.norm, userNames := s.userNames.norm, userPasswords := s.userPasswords.norm,
+           userEnabled := s.userEnabled.norm, userAccess := s.userAccess.norm, sensors := s.sensors.norm,
+           leds := s.leds.norm, fans := s.fans.norm, ports := s.ports.norm, power := s.power.norm,
+           frus := s.frus.norm, sigClass := s.sigClass.norm, powerChannels := s.powerChannels.norm }
+
+def oneLine (s : String) : String := " ".intercalate ((s.splitOn "\n").map fun x => x.trimAscii.toString)
+def dumpState (s : BmcState) : String := oneLine (reprStr (normState s))
+def digest (s : BmcState) : String := toString (hash (dumpState s))
+
+def sb (b : Bool) : String := if b then "1" else "0"
+def so : Option Nat → String
+  | some n => toString n
+  | none => "None"
+def names (l : List (Bool × String)) : String :=
+  let xs := l.filterMap fun (b, n) => if b then some n else none
+  if xs.isEmpty then "-" else ",".intercalate xs
+
+def bootDevName : BootDev → String
+  | .noOverride => "no_override" | .pxe => "pxe" | .defaultHdd => "default_hard_drive"
+  | .defaultHddSafe => "default_hard_drive_safe_mode" | .diagnostic => "diagnostic_partition" | .cd => "cd"
+  | .bios => "bios_setup" | .remoteFloppy => "remote_removable_media" | .remoteCd => "remote_cd"
+  | .primaryRemote => "primary_remote_media" | .remoteHdd => "remote_hard_drive"
+  | .floppy => "primary_removable_media_(usb)"
+
+/-- IPMI table 22-: user privilege limit codes -/
+def privName (c : Nat) : String :=
+  match c with
+  | 1 => "callback" | 2 => "user" | 3 => "operator" | 4 => "administrator" | 5 => "oem" | 15 => "no_access"
+  | _ => "reserved"
+
+def ipSourceName (c : Nat) : String :=
+  match c with
+  | 0 => "unknown" | 1 => "static" | 2 => "dhcp" | 3 => "bios" | 4 => "other" | _ => "py:KeyError"
+
+def showDur : Option Nat → String
+  | some d => toString (d * 10)
+  | none => "-"
+def showLedFn (f : LedFnView) : String :=
+  (match f.kind with | 0 => "off" | 1 => "blink" | 2 => "on" | k => s!"fn{k}") ++ s!" {showDur f.offDur} {showDur f.onDur}"
+
+def showResult : Result → String
+  | .unit => "None"
+  | .nat n => toString n
+  | .bool b => sb b
+  | .bytes l => toHex l
+  | .optNatPair a b => s!"{so a} {so b}"
+  | .natPair a b => s!"{a} {b}"
+  | .deviceId d =>
+    s!"id={d.deviceId} rev={d.revision} sdrs={sb d.providesSdrs} avail={sb d.updateInProgress} fw={d.fwMajor}.{d.fwMinor} ipmi={d.ipmiMajor}.{d.ipmiMinor} mfr={d.manufacturer} prod={d.product} fn=" ++
+      names [(bitOf d.support 0, "sensor"), (bitOf d.support 1, "sdr_repository"), (bitOf d.support 2, "sel"),
+             (bitOf d.support 3, "fru_inventory"), (bitOf d.support 4, "ipmb_event_receiver"),
+             (bitOf d.support 5, "ipmb_event_generator"), (bitOf d.support 6, "bridge"), (bitOf d.support 7, "chassis")]
+      ++ " aux=" ++ (match d.aux with | some a => toHex a | none => "None")
+  | .watchdog w =>
+    s!"use={w.timerUse} run={sb w.running} log={sb w.dontLog} pti={w.preInterrupt} act={w.action} int={w.preInterval} flags={w.expFlags} init={w.initial} pres={w.present}"
+  | .chassis c =>
+    s!"on={sb c.powerOn} ovl={sb c.overload} ilk={sb c.interlock} flt={sb c.fault} cflt={sb c.controlFault} pol={c.restorePolicy} idsup={sb c.idSupported} idst={c.idState} fp={so c.frontPanel} ev=" ++
+      names [(c.evAcFailed, "ac_failed"), (c.evOverload, "overload"), (c.evInterlock, "interlock"),
+             (c.evFault, "fault"), (c.evIpmiOn, "power_on_via_ipmi")]
+      ++ " st=" ++ names [(c.intrusion, "intrusion"), (c.lockout, "front_panel_lockout"),
+                          (c.driveFault, "drive_fault"), (c.coolingFault, "cooling_fault")]
+  | .bootDev d => match d with | some d => bootDevName d | none => "py:KeyError"
+  | .ip l => ".".intercalate (l.map toString)
+  | .mac l => ":".intercalate (l.map hex2)
+  | .ipSource c => ipSourceName c
+  | .userAccess v =>
+    s!"max={v.maxUsers} en={v.enabledCount} status={v.enableStatus} fixed={v.fixedNames} priv={privName v.privilege} msg={sb v.ipmiMsg} link={sb v.linkAuth} cb={sb v.callbackOnly}"
+  | .thresholds l =>
+    if l.isEmpty then "-" else ",".intercalate (l.map fun (i, v) => s!"{thrNames.getD i "?"}={v}")
+  | .picmgProps v m f => s!"ver={v} max={m} fru={f}"
+  | .power p => s!"dyn={sb p.dynamic} lvl={p.level} delay={p.delay} mult={p.multiplier} draw={toHex p.draw}"
+  | .fanProps a b c d => s!"min={a} max={b} norm={c} local={sb d}"
+  | .led x =>
+    s!"avail={sb x.localAvail} ovr={sb x.overrideEn} lamp={sb x.lampTestEn} local={showLedFn x.localFn} {x.localColor} override="
+      ++ (match x.override with | some (f, c) => s!"{showLedFn f} {c}" | none => "None")
+      ++ " lampdur=" ++ (match x.lampDur with | some d => toString (d * 100) | none => "None")
+  | .port l =>
+    match l with
+    | some p => s!"ch={p.channel} if={p.iface} flags={p.flags} type={p.linkType} ext={p.ext} grp={p.grouping} state={p.state}"
+    | none => "nolink"
+  | .pmGlobal g => s!"role={g % 2} mgmt={g / 2 % 2} payload={g / 4 % 2} fault={g / 8 % 2}"
+  | .hpmStatus c cc => s!"cmd={c} cc={cc}"
+  | .hpmCaps v comps => s!"ver={v} comps=" ++ natList ((List.range 8).filter fun i => bitOf comps i)
+  | .error cc => s!"cc:{cc}"
+
+/-! ### parsing calls -/
+
+def pNat (s : String) : Option Nat := s.toNat?
+def pBool (s : String) : Option Bool := if s == "1" then some true else if s == "0" then some false else none
+def pOpt (s : String) : Option (Option Nat) := if s == "n" then some none else s.toNat?.map some
+
+def chassisNames : List String := ["power_down", "power_up", "power_cycle", "hard_reset", "diagnostic_interrupt", "soft_shutdown"]
+def fruCtlNames : List String := ["cold_reset", "warm_reset", "graceful_reboot", "diagnostic_interrupt"]
+
+def parseCall (op : String) (a : List String) : Option Call :=
+  match op, a with
+  | "get_device_id", [] => some .getDeviceId
+  | "get_device_guid", [] => some .getDeviceGuid
+  | "cold_reset", [] => some .coldReset
+  | "warm_reset", [] => some .warmReset
+  | "set_watchdog_timer", [u, ds, dl, act, pti, iv, fl, ini] => do
+    some (.setWatchdog { timerUse := ← pNat u, dontStop := ← pBool ds, dontLog := ← pBool dl, action := ← pNat act,
+                         preInterrupt := ← pNat pti, preInterval := ← pNat iv, clearFlags := ← pNat fl, initial := ← pNat ini })
+  | "get_watchdog_timer", [] => some .getWatchdog
+  | "reset_watchdog_timer", [] => some .resetWatchdog
+  | "get_chassis_status", [] => some .getChassisStatus
+  | "chassis_control", [o] => do some (.chassisControl (← pNat o))
+  | "get_system_boot_options", [a, b, c] => do some (.getBootParam (← pNat a) (← pNat b) (← pNat c))
+  | "set_system_boot_options", [a, h, i] => do some (.setBootParam (← pNat a) (← ofHex h) (← pBool i))
+  | "get_boot_mode", [] => some .getBootMode
+  | "get_boot_persistency", [] => some .getBootPersistency
+  | "get_boot_device", [] => some .getBootDevice
+  | "set_boot_options", [d, e, p] => do some (.setBootOptions (← BootDev.all[(← pNat d)]?) (← pBool e) (← pBool p))
+  | "get_lan_config_param", [c, p, s, b, r] => do some (.getLanParam (← pNat c) (← pNat p) (← pNat s) (← pNat b) (← pBool r))
+  | "set_lan_config_param", [c, p, h] => do some (.setLanParam (← pNat c) (← pNat p) (← ofHex h))
+  | "get_ip_address", [c] => do some (.getIp (← pNat c))
+  | "set_ip_address", [h, c] => do some (.setIp (← ofHex h) (← pNat c))
+  | "get_ip_source", [c] => do some (.getIpSource (← pNat c))
+  | "set_ip_source", [v, c] => do some (.setIpSource (← pNat v) (← pNat c))
+  | "get_mac_address", [c] => do some (.getMac (← pNat c))
+  | "get_vlan_id", [c] => do some (.getVlan (← pNat c))
+  | "set_vlan_id", [v, c] => do some (.setVlan (← pNat v) (← pNat c))
+  | "set_username", [u, h] => do some (.setUserName (← pNat u) (← ofHex h))
+  | "get_username", [u] => do some (.getUserName (← pNat u))
+  | "get_user_access", [u, c] => do some (.getUserAccess (← pNat u) (← pNat c))
+  | "set_user_access", [u, m, l, cb, p, c, e, lim] => do
+    some (.setUserAccess { userId := ← pNat u, ipmiMsg := ← pBool m, linkAuth := ← pBool l, callbackOnly := ← pBool cb,
+                           privilege := ← pNat p, channel := ← pNat c, enableChange := ← pBool e, sessionLimit := ← pNat lim })
+  | "set_user_password", [u, h] => do some (.setUserPassword (← pNat u) (← ofHex h))
+  | "enable_user", [u] => do some (.enableUser (← pNat u))
+  | "disable_user", [u] => do some (.disableUser (← pNat u))
+  | "get_sensor_reading", [n, l] => do some (.getSensorReading (← pNat n) (← pNat l))
+  | "set_sensor_thresholds", n :: l :: vals => do
+    if vals.length ≠ 6 then none else some (.setSensorThresholds (← pNat n) (← pNat l) (← vals.mapM pOpt))
+  | "get_sensor_thresholds", [n, l] => do some (.getSensorThresholds (← pNat n) (← pNat l))
+  | "rearm_sensor_events", [n] => do some (.rearmSensorEvents (← pNat n))
+  | "send_platform_event", [t, n, e, asserted, h] => do
+    some (.sendPlatformEvent { evmRev := 4, sensorType := ← pNat t, sensorNum := ← pNat n, eventType := ← pNat e,
+                               deassert := !(← pBool asserted), data := ← (if h == "default" then some [0] else ofHex h) })
+  | "set_event_receiver", [x, l] => do some (.setEventReceiver (← pNat x) (← pNat l))
+  | "get_event_receiver", [] => some .getEventReceiver
+  | "get_picmg_properties", [] => some .getPicmgProperties
+  | "fru_control", [f, o] => do some (.fruControl (← pNat f) (← pNat o))
+  | "get_power_level", [f, t] => do some (.getPowerLevel (← pNat f) (← pNat t))
+  | "get_fan_speed_properties", [f] => do some (.getFanSpeedProperties (← pNat f))
+  | "set_fan_level", [f, l] => do some (.setFanLevel (← pNat f) (← pNat l))
+  | "get_fan_level", [f] => do some (.getFanLevel (← pNat f))
+  | "get_led_state", [f, l] => do some (.getLedState (← pNat f) (← pNat l))
+  | "set_led_state", [f, l, kind, x, y, color] => do
+    let cmd ← match kind with
+      | "off" => some (LedCmd.override .off (← pNat color))
+      | "on" => some (LedCmd.override .on (← pNat color))
+      | "blink" => some (LedCmd.override (.blink (← pNat x) (← pNat y)) (← pNat color))
+      | "lamp" => some (LedCmd.lampTest (← pNat x) (← pNat color))
+      | _ => none
+    some (.setLedState (← pNat f) (← pNat l) cmd)
+  | "set_fru_activation", [f] => do some (.setFruActivation (← pNat f) true)
+  | "set_fru_deactivation", [f] => do some (.setFruActivation (← pNat f) false)
+  | "set_fru_activation_policy", [f, c] => do some (.setFruActivationPolicy (← pNat f) (← pNat c))
+  | "set_fru_activation_lock", [f] => do some (.fruLockNamed 0 (← pNat f))
+  | "clear_fru_activation_lock", [f] => do some (.fruLockNamed 1 (← pNat f))
+  | "set_fru_deactivation_lock", [f] => do some (.fruLockNamed 2 (← pNat f))
+  | "clear_fru_deactivation_lock", [f] => do some (.fruLockNamed 3 (← pNat f))
+  | "set_port_state", [i, c, fl, t, e, g, st] => do
+    some (.setPortState (← pNat i) (← pNat c)
+      { hasLink := true, flags := ← pNat fl, linkType := ← pNat t, ext := ← pNat e, grouping := ← pNat g, state := ← pNat st })
+  | "get_port_state", [c, i] => do some (.getPortState (← pNat c) (← pNat i))
+  | "get_pm_global_status", [] => some .getPmGlobalStatus
+  | "get_power_channel_status", [s] => do some (.getPowerChannelStatus (← pNat s))
+  | "send_channel_power", [c, e, l, p, b] => do
+    some (.sendChannelPower (← pNat c) (← pBool e) (← pNat l) (← pNat p) (← pNat b))
+  | "send_pm_heartbeat", [] => some .sendPmHeartbeat
+  | "set_signaling_class", [i, c, v] => do some (.setSignalingClass (← pNat i) (← pNat c) (← pNat v))
+  | "get_signaling_class", [i, c] => do some (.getSignalingClass (← pNat i) (← pNat c))
+  | "get_upgrade_status", [] => some .getUpgradeStatus
+  | "get_target_upgrade_capabilities", [] => some .getTargetUpgradeCapabilities
+  | "query_selftest_results", [] => some .querySelftestResults
+  | "query_rollback_status", [] => some .queryRollbackStatus
+  | _, _ =>
+    if op.startsWith "chassis_control_" then
+      match chassisNames.idxOf? (op.drop 16).toString, a with
+      | some i, [] => some (.chassisControlNamed i)
+      | _, _ => none
+    else if op.startsWith "fru_control_" then
+      match fruCtlNames.idxOf? (op.drop 12).toString, a with
+      | some i, [f] => (pNat f).map (.fruControlNamed i)
+      | _, _ => none
+    else none
+
+/-! ### the loop -/
+
+abbrev Insts := Array BmcState
+
+def step (st : Insts) (line : String) : Insts × String :=
   match tokens line with
-  | ["ping"] => "pong"
-  | _ => "bad-op"
+  | ["ping"] => (st, "pong")
+  | ["ops"] => (st, " ".intercalate PyIpmi.Model.Api.modelledOps)
+  | ["new", i, seed] =>
+    match pNat i, pNat seed with
+    | some i, some seed =>
+      if i < 4 then
+        let s := (genState.run (seed * 2654435761 + 12345)).1
+        let st := if st.size ≤ i then st ++ Array.replicate (i + 1 - st.size) ({} : BmcState) else st
+        (st.set! i s, "ok")
+      else (st, "bad-op")
+    | _, _ => (st, "bad-op")
+  | ["mut", i, seed, fam] =>
+    match pNat i, pNat seed with
+    | some i, some seed =>
+      match st[i]? with
+      | some s => (st.set! i ((mutate fam s).run (seed * 40503 + 977)).1, "ok")
+      | none => (st, "bad-op")
+    | _, _ => (st, "bad-op")
+  | ["req", i, nf, lun, cmd, h] =>
+    match pNat i, pNat nf, pNat lun, pNat cmd, ofHex h with
+    | some i, some nf, some lun, some cmd, some data =>
+      match st[i]? with
+      | some s =>
+        let (s', rsp) := handle s { netfn := nf, lun := lun, cmd := cmd, data := data }
+        (st.set! i s', toHex rsp)
+      | none => (st, "bad-op")
+    | _, _, _, _, _ => (st, "bad-op")
+  | ["digest", i] =>
+    match (pNat i).bind (st[·]?) with
+    | some s => (st, digest s)
+    | none => (st, "bad-op")
+  | ["dump", i] =>
+    match (pNat i).bind (st[·]?) with
+    | some s => (st, dumpState s)
+    | none => (st, "bad-op")
+  | "spec" :: i :: op :: args =>
+    match (pNat i).bind (st[·]?), parseCall op args with
+    | some s, some c => let (s', r) := run c s; (st, digest s' ++ " " ++ showResult r)
+    | _, _ => (st, "bad-op")
+  | "specdump" :: i :: op :: args =>
+    match (pNat i).bind (st[·]?), parseCall op args with
+    | some s, some c => (st, dumpState (run c s).1)
+    | _, _ => (st, "bad-op")
+  | "model" :: i :: variant :: op :: args =>
+    match (pNat i).bind (st[·]?), parseCall op args with
+    | some s, some c =>
+      match PyIpmi.Model.Api.runModelV (variant.contains 'l') (variant.contains 'p') c s with
+      | .ok (s', r) => (st, digest s' ++ " " ++ showResult r)
+      | e => (st, e.tag)
+    | _, _ => (st, "bad-op")
+  | _ => (st, "bad-op")
 
 def main : IO Unit := do
-  loop (← IO.getStdin) (← IO.getStdout) handleC07
+  loopS (← IO.getStdin) (← IO.getStdout) step (#[] : Insts)
